@@ -398,10 +398,10 @@ def fcalls(f):
     return out
 
 
-def gen_case(rng, kind):
-    """returns (cfg, forest, tags)"""
-    T = rng.choice([3, 10, 100])
-    durs = (1, 2, T - 1, T, T + 1, 2 * T, 5 * T)
+def gen_case(rng, kind, eq=True):
+    """returns (cfg, forest, tags); eq=False keeps leaf durations away from the thresholds' exact values"""
+    T = rng.choice([3, 10, 100]) if eq else rng.choice([10, 100])
+    durs = (1, 2, T - 1, T, T + 1, 2 * T, 5 * T) if eq else (2, 4, T - 3, T + 3, 2 * T + 3, 5 * T + 3)
     f = gen_forest(rng, durs)
     calls = fcalls(f)
     used = sorted(set(c.k for c in calls))
@@ -414,23 +414,23 @@ def gen_case(rng, kind):
     h = fheight(f)
     if kind == "plain":
         pass
-    if kind in ("depth", "mix", "fd"):
+    if kind in ("depth", "mix", "fd", "mix2"):
         cfg["depth"] = max(1, rng.choice([h - 1, h, h + 1, 1, 2]))
         tags.append("D=h%+d" % (cfg["depth"] - h) if abs(cfg["depth"] - h) <= 1 else "D=other")
-    if kind in ("filter", "mix", "fd", "fn"):
+    if kind in ("filter", "mix", "fd", "fn", "mix2"):
         for _ in range(rng.choice([1, 1, 2])):
             trig(pick())["filter"] = True
-    if kind in ("notrace", "mix", "fn"):
+    if kind in ("notrace", "mix", "fn", "mix2"):
         for _ in range(rng.choice([1, 1, 2])):
             k = pick()
             if trig(k).get("filter") is None:
                 trig(k)["filter"] = False
-    if kind in ("time", "mix", "timetrig", "caller_time"):
+    if kind in ("time", "mix", "timetrig", "caller_time", "mix2"):
         cfg["threshold"] = T
         tags.append("t=T")
     if kind in ("timetrig", "mix"):
         for _ in range(rng.choice([1, 2])):
-            trig(pick())["time"] = rng.choice([0, 1, T - 1, T, T + 1, 3 * T])
+            trig(pick())["time"] = rng.choice([0, 1, T - 1, T, T + 1, 3 * T] if eq else [T, T + 1, 3 * T, 5 * T])
         if rng.random() < 0.4:
             trig(pick())["trace"] = True
     if kind in ("caller", "caller_time"):
@@ -503,7 +503,7 @@ def gen_case(rng, kind):
 
 
 KINDS = ["plain", "depth", "filter", "notrace", "fn", "fd", "time", "timetrig", "caller", "caller_time", "hide",
-         "deptrig", "fdt", "mix", "switch", "range", "pltleaf", "plt"]
+         "deptrig", "fdt", "mix", "mix2", "switch", "range", "pltleaf", "plt"]
 
 
 # ---------------------------------------------------------------- meta
@@ -613,14 +613,194 @@ def verdict1(ctx, cases, res):
     ctx.extra["disagreements_checked"] = ctx.extra.get("disagreements_checked", 0) + sum(len(v) for v in mm.values())
 
 
+# ---------------------------------------------------------------- line 2: record time vs replay time
+SHARED = ("filter", "depth", "time", "trace_on", "trace_off", "trace", "caller")
+
+
+def shared_only(cfg):
+    """the part of an option set that exists at record time too"""
+    c = {"trig": {k: {a: v for a, v in t.items() if a in SHARED} for k, t in cfg.get("trig", {}).items()}}
+    c["trig"] = {k: v for k, v in c["trig"].items() if v}
+    if cfg.get("depth") is not None:
+        c["depth"] = cfg["depth"]
+    if cfg.get("threshold"):
+        c["threshold"] = cfg["threshold"]
+    return c
+
+
+def mc_record(h, cfg, f, shape):
+    """drive the real libmcount with the forest; -> list of (time, exit?, depth, fn)"""
+    lines = []
+    for e in forest.flatten(f):
+        if shape == "cyg":
+            lines.append("%s %d %d" % ("CE" if e[0] == "E" else "CX", e[1], e[2]))
+        elif e[0] == "E":
+            lines.append("E %d %d" % (e[1], e[2]))
+        else:
+            lines.append("X %d" % e[2])
+    lines.append("DUMP")
+    mc = dict(cfg)
+    mc["shape"] = shape
+    out, err = h.run(lines, env=mch.cfg_env(mc))
+    blk = []
+    for l in out:
+        if l.startswith("R "):
+            blk.append(l)
+    recs = []
+    for (t, ty, more, magic, depth, addr, pl) in mch.parse_records(blk):
+        if ty not in (0, 1) or addr[0] != "f":
+            raise ParseError("unexpected record from libmcount: %r" % ((t, ty, depth, addr),))
+        recs.append((t, ty == 1, depth, addr[1]))
+    return recs
+
+
+def line2(ctx, objdir, todo):
+    h = mch.Harness(ctx)
+    d = os.path.join(ctx.scratch, "data2")
+    cases = []
+    for kind, cfg, f, tags, shape in todo:
+        try:
+            recs = mc_record(h, cfg, f, shape)
+            write_dir(d, {}, [{"t": t, "type": 1 if x else 0, "depth": dep, "addr": addr_of(k)} for t, x, dep, k in recs])
+            if recs:
+                rc, out, err = datadir.uftrace(objdir, "replay", d, ["-f", "none"], timeout=30)
+                if rc != 0:
+                    raise ParseError("replay of the filtered recording failed rc=%d: %s" % (rc, (out + err)[-300:]))
+                a = parse_replay(out)
+            else:
+                a = []          # nothing recorded: replay refuses an empty data file
+            write_dir(d, cfg, recs_of(f))
+            rc, out, err = datadir.uftrace(objdir, "replay", d, ["-f", "none"] + cli_opts(cfg), timeout=30)
+            if rc != 0:
+                raise ParseError("replay with options failed rc=%d: %s" % (rc, (out + err)[-300:]))
+            bb = parse_replay(out)
+        except (ParseError, RuntimeError) as e:
+            ctx.violation("record-time / replay-time run failed: %s" % e,
+                          {"line": 2, "rcase": {"cfg": cfg_json(cfg), "forest": [c.to_json() for c in f], "shape": shape}}, True)
+            continue
+        cases.append({"kind": kind, "cfg": cfg, "forest": f, "shape": shape, "records": recs, "rec_replay": a,
+                      "opt_replay": bb, "tags": tags})
+    return cases
+
+
+def rcase_term(c):
+    return ("{| rr_cfg := %s; rr_forest := %s; rr_shape := %s;\n   rr_records := [%s];\n   rr_rec_replay := %s;\n"
+            "   rr_opt_replay := %s |}") % (
+        coq_cfg(c["cfg"]), coq_forest(c["forest"]), "MC.CYG" if c["shape"] == "cyg" else "MC.PG",
+        "; ".join("(%d%%N, %s, %d, %d%%N)" % (t, b(x), dep, k) for t, x, dep, k in c["records"]),
+        coq_nd(c["rec_replay"]), coq_nd(c["opt_replay"]))
+
+
+def evaluate2(ctx, cases, name="rcases"):
+    defs = "Definition rcases : list rcase := [\n%s\n].\n" % ";\n".join(rcase_term(c) for c in cases)
+    evs = [("mm_record", "bad_indices agree_record rcases 0"), ("mm_rec_replay", "bad_indices agree_rec_replay rcases 0"),
+           ("mm_opt_replay", "bad_indices agree_opt_replay rcases 0"), ("v_rr", "bad_indices ok_rr rcases 0"),
+           ("outside", "bad_indices rr_class rcases 0"),
+           ("differ", "bad_indices (fun k => list_eqb nd_eqb (rr_rec_replay k) (rr_opt_replay k)) rcases 0")]
+    res = coq.run_cases(ctx, name, PRE, defs, evs)
+    if res is None:
+        return None
+    return {k: coq.parse_nat_list(v) for k, v in res.items()}
+
+
+def rcase_json(c):
+    return {"cfg": cfg_json(c["cfg"]), "forest": [x.to_json() for x in c["forest"]], "shape": c["shape"],
+            "record_options": mch.cfg_env(dict(c["cfg"], shape=c["shape"])), "replay_options": cli_opts(c["cfg"]),
+            "records_written_by_libmcount": c.get("records"), "replay_of_filtered_recording": c.get("rec_replay"),
+            "replay_with_options_of_full_recording": c.get("opt_replay")}
+
+
+def verdict2(ctx, cases, res):
+    if res is None:
+        return
+    for i in res["v_rr"][:3]:
+        ctx.violation("C07 violated: recording with %s and replaying differs from recording everything and replaying "
+                      "with the same options" % " ".join(cli_opts(cases[i]["cfg"])),
+                      {"line": 2, "check": "ok_rr", "rcase": rcase_json(cases[i])}, True)
+    mm = {e: res[e] for e in ("mm_record", "mm_rec_replay", "mm_opt_replay") if res[e]}
+    if mm and not res["v_rr"]:
+        e, idx = sorted(mm.items())[0]
+        ctx.violation("model and implementation disagree on the record-time line (%s) on %d case(s)" % (e, len(idx)),
+                      {"line": 2, "correspondence": e, "rcase": rcase_json(cases[idx[0]])}, False)
+    ctx.extra["disagreements_checked"] = ctx.extra.get("disagreements_checked", 0) + sum(len(v) for v in mm.values())
+    ctx.extra["record_vs_replay"] = {"cases": len(cases), "in_agreement_class": len(cases) - len(res["outside"]),
+                                     "differ_outside_class": len(res["differ"])}
+
+
+KINDS2 = ["plain", "depth", "filter", "notrace", "fn", "fd", "time", "timetrig", "caller", "caller_time", "mix2",
+          "deptrig", "fdt", "switch"]
+
+
+# ---------------------------------------------------------------- dedicated witnesses of known divergences
+def C(k, t0, t1, kids=None):
+    return Call(k, t0, t1, kids or [])
+
+
+def witnesses1():
+    """(key, what, cfg, forest, differs(out) -> bool)"""
+    f1 = [C(0, 1000, 2000, [C(1, 1100, 1500, [C(2, 1200, 1400, [C(3, 1250, 1300)])]), C(4, 1600, 1700)])]
+    fplt = [C(0, 1000, 2000, [C(4, 1100, 1150), C(2, 1200, 1400, [C(3, 1250, 1300)])])]
+    return [
+        ("raw-dump-ignores-time-filter",
+         "`uftrace dump -t 101ns` (raw format) prints calls that every other command drops (do_dump_file reads the "
+         "data files without the look-ahead time/caller filter)",
+         {"trig": {}, "threshold": 101}, f1,
+         lambda o: [(x, f) for x, f, d, t in o["raw"]] != [(x, f) for x, f, t in o["chrome"]]),
+        ("no-libcall-replay-vs-report",
+         "`--no-libcall -D 2`: replay shows a callback below a hidden PLT function that report/graph/dump count as "
+         "too deep (replay skips fstack_entry for PLT functions, the others run it)",
+         {"trig": {}, "depth": 2, "libcall": False, "plt": [2]}, fplt,
+         lambda o: [(x, f) for x, f, d in o["replay"]] != [(x, f) for x, f, t in o["chrome"]]),
+        ("graph-time-range-drops-calls",
+         "`uftrace graph -r A~B`: after the first EXIT whose ENTRY lies before A the graph ignores every later call",
+         {"trig": {}, "range": (1200, 1650)}, f1,
+         lambda o: sorted(f for d, f, k in o["graph"]) != sorted(set(f for x, f, t in o["chrome"] if not x))),
+    ]
+
+
+def witnesses2():
+    T = 100
+    return [
+        ("threshold-boundary",
+         "a call that runs exactly the threshold: `record -t 100ns` drops it (keeps `>`), `replay -t 100ns` of the "
+         "full recording shows it (drops `<`)",
+         {"trig": {}, "threshold": T}, [C(0, 1000, 2000, [C(1, 1100, 1100 + T), C(2, 1300, 1300 + T + 1)])], "pg"),
+        ("filter-below-depth-trigger",
+         "-F main -T alpha@depth=1 -F beta: record shows alpha { beta }, replay of the full recording shows beta's "
+         "whole subtree (DESIGN section 9 #12)",
+         {"trig": {0: {"filter": True}, 1: {"depth": 1}, 2: {"filter": True}}},
+         [C(0, 1000, 2000, [C(1, 1100, 1900, [C(2, 1200, 1800, [C(3, 1300, 1700, [C(4, 1400, 1500)])])])])], "pg"),
+        ("time-trigger-outside-filter",
+         "-F delta -T main@time=300ns -t 100ns: the time= of a function outside the -F scope is honoured at replay "
+         "time only",
+         {"trig": {0: {"time": 300}, 4: {"filter": True}}, "threshold": 100},
+         [C(0, 1000, 3000, [C(4, 1100, 2500, [C(2, 1200, 1403), C(3, 1500, 2000)])])], "pg"),
+    ]
+
+
+def report_witness(ctx, key, what, still, replay_obj):
+    ctx.extra.setdefault("divergence_witnesses", {})[key] = "reproduces" if still else "no longer reproduces"
+    if ctx.kf.listed(ctx.prop, key):
+        ctx.known_finding(key, what, still, replay_obj)
+    elif still:
+        ctx.log("divergence witness %s reproduces (not listed in known-findings.txt; reported in evidence): %s"
+                % (key, what))
+    else:
+        ctx.log("divergence witness %s no longer reproduces" % key)
+
+
 def run(ctx):
     common_meta(ctx)
     objdir, sp = setup(ctx)
     rng = ctx.rng
+    # ---- line 1
     todo = []
-    n = ctx.n(10, 60)
+    w1 = witnesses1()
+    for key, what, cfg, f, differs in w1:
+        todo.append(("witness:" + key, cfg, f, ["witness:" + key]))
+    n = ctx.n(8, 90)
     for kind in KINDS:
-        for _ in range(n if kind not in ("plain",) else 3):
+        for _ in range(n if kind != "plain" else 3):
             cfg, f, tags = gen_case(rng, kind)
             todo.append((kind, cfg, f, tags))
     cases = line1(ctx, objdir, sp, todo)
@@ -632,11 +812,48 @@ def run(ctx):
                  nontrivial=hides_something(c), tags=c["tags"] + (["in-spec-class"] if i not in outside else []),
                  size=size, sample=case_json(c) if len(ctx.samples) < 3 and hides_something(c) else None)
     verdict1(ctx, cases, res)
+    for (key, what, cfg, f, differs), c in zip(w1, [c for c in cases if c["kind"].startswith("witness:")]):
+        report_witness(ctx, key, what, differs(c["out"]), {"line": 1, "case": case_json(c)})
+    # ---- line 2
+    todo = []
+    w2 = witnesses2()
+    for key, what, cfg, f, shape in w2:
+        todo.append(("witness:" + key, cfg, f, ["witness:" + key], shape))
+    n2 = ctx.n(5, 60)
+    for kind in KINDS2:
+        for i in range(n2 if kind != "plain" else 2):
+            cfg, f, tags = gen_case(rng, kind, eq=(i % 3 == 0))
+            todo.append((kind, shared_only(cfg), f, tags, "cyg" if i % 4 == 3 else "pg"))
+    rcases = line2(ctx, objdir, todo)
+    res2 = evaluate2(ctx, rcases)
+    outside2 = set(res2["outside"]) if res2 else set()
+    for i, c in enumerate(rcases):
+        ctx.case(key=("rr", c["shape"], json.dumps(cfg_json(c["cfg"]), sort_keys=True),
+                      json.dumps([x.to_json() for x in c["forest"]])),
+                 nontrivial=c["rec_replay"] != [] and len(c["records"]) != 2 * sum(x.size() for x in c["forest"]),
+                 tags=["record-vs-replay", "rr:" + c["kind"], "rr:" + c["shape"]]
+                 + (["rr:in-agreement-class"] if i not in outside2 else []),
+                 size=sum(x.size() for x in c["forest"]),
+                 sample=rcase_json(c) if i == len(w2) else None)
+    verdict2(ctx, rcases, res2)
+    for (key, what, cfg, f, shape), c in zip(w2, [c for c in rcases if c["kind"].startswith("witness:")]):
+        report_witness(ctx, key, what, c["rec_replay"] != c["opt_replay"], {"line": 2, "rcase": rcase_json(c)})
 
 
 def replay(ctx, obj):
     common_meta(ctx)
     objdir, sp = setup(ctx)
+    rj = obj.get("rcase")
+    if rj:
+        cfg = cfg_unjson(rj["cfg"])
+        f = [Call.from_json(x) for x in rj["forest"]]
+        rcases = line2(ctx, objdir, [("replay", cfg, f, [], rj.get("shape", "pg"))])
+        res2 = evaluate2(ctx, rcases)
+        for c in rcases:
+            ctx.case(key="replay", sample=rcase_json(c))
+            ctx.log("replayed: record", c["rec_replay"], "vs replay", c["opt_replay"])
+        verdict2(ctx, rcases, res2)
+        return
     cj = obj.get("case")
     if not cj:
         ctx.log("replay file has no case; nothing to re-execute")
